@@ -161,6 +161,16 @@ def check_window(name, size, alpha, route):
   per, sym = _strategies(name, route)
   tag = "%s(%d%s)" % (name, size, "" if alpha is None else ", alpha=%r" % (alpha,))
 
+  # what an earlier caller did to the lists it was given must not matter (the periodic docstrings
+  # themselves suggest appending a sample to the result): use and change earlier results first
+  for f, sz in ((per, size), (sym, size + 1), (sym, size)):
+    earlier = _call(f, sz, alpha, route)
+    if isinstance(earlier, list):
+      earlier.append(7.5)
+      earlier[0] = -3.25
+      if len(earlier) > 2:
+        del earlier[1]
+
   w = _call(per, size, alpha, route)
   _check_list("window." + tag, w, size)
   ws1 = _call(sym, size + 1, alpha, route)
